@@ -12,6 +12,10 @@ MODELLED = ("merge_bins bin-map construction, BinningBase.apply_bin_map, _reshap
 def gen(rng, n, tier):
     for i in range(n):
         h = C.gen_hist(rng, maxbins=7, gapped=0.3, weights=rng.choice(["int", "float"]))
+        if rng.random() < 0.15:      # bins far from zero: a gap of 1 is below numpy.allclose's relative tolerance there
+            off = Fr(2) ** rng.choice([20, 23, 30]) * rng.choice([1, -1])
+            hd = sx.rec(h); hd["bins"] = [[[a + off, b + off] for a, b in ax] for ax in hd["bins"]]
+            h = [[k, v] for k, v in hd.items()]
         d = sx.rec(h); ndim = len(d["bins"])
         axis = rng.choice(["none"] + list(range(ndim)) * 2)
         axes = list(range(ndim)) if axis == "none" else [axis]
